@@ -183,9 +183,9 @@ def sem_verdict(src, run):
 
 
 # programs whose s-expression is an equivalent program rather than the statement the compiler sees
-# (switch as if/else chain, `reg_x := e`, corpus cases marked "exec_only"): tied through execution,
-# resources and machine only, never through the assembly text
-NOTEXT_TAGS = ("switch", "define-reg", "exec-only")
+# (`reg_x := e`, corpus cases marked "exec_only"): tied through execution, resources and machine only,
+# never through the assembly text.  (`switch` is in the model since round 7: text equality.)
+NOTEXT_TAGS = ("define-reg", "exec-only")
 REFUSED = "!refused:already-defined"
 
 
